@@ -87,6 +87,49 @@ static void eval_pair(const Basic &e, const Pairs &sigma, const Basic &R, const 
     got = Ev<S, 0>::eval(R, env);
 }
 
+// e contains a power b**k that the smart constructor pow(b, k) would rewrite (e.g. (x**-1)**(1/2), which pow()
+// turns into x**(-1/2)): such objects come out of the public API, and with the cache an equal-but-not-identical
+// sub-object makes the visitor rebuild them (docs/C11.md, D-C11-3)
+static bool has_unstable_pow(const Basic &b)
+{
+    try {
+        if (is_a<Pow>(b)) {
+            const Pow &p = down_cast<const Pow &>(b);
+            if (!eq(*pow(p.get_base(), p.get_exp()), b))
+                return true;
+        }
+        if (is_a<Mul>(b)) {
+            for (const auto &q : down_cast<const Mul &>(b).get_dict())
+                if (!eq(*q.second, *one) && !eq(*pow(q.first, q.second), *make_rcp<const Pow>(q.first, q.second)))
+                    return true;
+        }
+    } catch (const std::exception &) {
+        return true;
+    }
+    for (const auto &a : b.get_args())
+        if (has_unstable_pow(*a))
+            return true;
+    return false;
+}
+
+// the result contains the symbol `name` under a non-integer exponent
+static bool has_fractional_power_of(const Basic &b, const std::string &name)
+{
+    auto is_it = [&](const Basic &base, const Basic &ex) {
+        return is_a<Symbol>(base) && down_cast<const Symbol &>(base).get_name() == name && !is_a<Integer>(ex);
+    };
+    if (is_a<Pow>(b) && is_it(*down_cast<const Pow &>(b).get_base(), *down_cast<const Pow &>(b).get_exp()))
+        return true;
+    if (is_a<Mul>(b))
+        for (const auto &q : down_cast<const Mul &>(b).get_dict())
+            if (is_it(*q.first, *q.second))
+                return true;
+    for (const auto &a : b.get_args())
+        if (has_fractional_power_of(*a, name))
+            return true;
+    return false;
+}
+
 // two different keys with the same symbol as image while e contains a Derivative: the known rename clash
 static bool merge_clash(const Basic &e, const Pairs &sigma)
 {
@@ -260,7 +303,8 @@ std::string hx_run(const std::string &line, std::string &oracle)
     B R = cache ? rc : ru;
     std::string out = vsexp::dump(R);
     if (!eq(*rc, *ru)) {
-        oracle = "FAIL:cache:cached " + vsexp::dump(rc) + " uncached " + vsexp::dump(ru);
+        oracle = std::string("FAIL:") + (has_unstable_pow(*e) ? "cache-unstable-pow" : "cache") + ":cached "
+                 + vsexp::dump(rc) + " uncached " + vsexp::dump(ru);
         return out;
     }
     bool binder = has_kind(*e, is_binder);
@@ -281,6 +325,39 @@ std::string hx_run(const std::string &line, std::string &oracle)
     }
     if (!symkeys) {
         stat("expression_key_cases");
+        // every image is a distinct symbol that occurs neither in e nor in a key: give it the value of its key;
+        // then the result must have the value of e  ("replace a sub-expression by a name for it")
+        std::set<std::string> esyms, imgs;
+        collect_symbols(*e, esyms);
+        for (const auto &p : sigma)
+            collect_symbols(*p.first, esyms);
+        bool fresh = true;
+        for (const auto &p : sigma) {
+            if (!is_a<Symbol>(*p.second))
+                fresh = false;
+            else {
+                const std::string &n = down_cast<const Symbol &>(*p.second).get_name();
+                if (esyms.count(n) || imgs.count(n))
+                    fresh = false;
+                imgs.insert(n);
+            }
+        }
+        if (fresh && !has_kind(*e, is_binder)) {
+            stat("expression_key_fresh_image_cases");
+            // e with sigma reversed: image symbol -> key expression; value(R at rho[img := value(key)]) == value(e at rho)
+            Pairs rev;
+            for (const auto &p : sigma)
+                rev.push_back(std::make_pair(p.second, p.first));
+            std::string o2 = "ok";
+            value_oracle(R, rev, e, line, o2);
+            if (o2 != "ok") {
+                // the exponent path applied with a non-integer quotient (D-C11-2): the image symbol shows up under a
+                // fractional exponent; any other mismatch keeps the generic key
+                bool powpath = mode == "subs" && sigma.size() == 1 && is_a<Pow>(*sigma[0].first)
+                               && has_fractional_power_of(*R, down_cast<const Symbol &>(*sigma[0].second).get_name());
+                oracle = std::string("FAIL:") + (powpath ? "exprkey-pow-path-value" : "exprkey-value") + o2.substr(o2.find(':', 5));
+            }
+        }
         return out;
     }
     set_basic fs = free_symbols(*e);
@@ -449,7 +526,7 @@ void hx_gen(Rng &rng, const std::string &tier)
                 continue;
             Pairs sigma;
             bool ident = g.r.coin(1, 8);
-            sigma.push_back(std::make_pair(k, ident ? k : image(g, (int)g.r.below(3), kinds)));
+            sigma.push_back(std::make_pair(k, ident ? k : (g.r.coin() ? B(symbol("w")) : image(g, (int)g.r.below(3), kinds))));
             if (g.r.coin(1, 4))
                 sigma.push_back(std::make_pair(B(symbol("x")), image(g, (int)g.r.below(3), kinds)));
             emit_subs(g, MODES[g.r.below(4)], e, sigma, ident ? "exprkey/identity" : "exprkey/subterm");
@@ -467,7 +544,7 @@ void hx_gen(Rng &rng, const std::string &tier)
                 e = add(e, pow(x, mul(integer(a), symbol("z"))));
             B key = g.r.coin(1, 3) ? pow(x, symbol("z")) : pow(x, integer(b));
             Pairs sigma;
-            sigma.push_back(std::make_pair(key, image(g, 1 + (int)g.r.below(2), 0)));
+            sigma.push_back(std::make_pair(key, g.r.coin(2, 3) ? B(symbol("w")) : image(g, 1 + (int)g.r.below(2), 0)));
             emit_subs(g, MODES[g.r.below(10) < 6 ? 0 : 1 + g.r.below(3)], e, sigma, "exprkey/pow");
         } catch (const std::exception &) {
             stat("gen_exception");
